@@ -2,8 +2,8 @@ package props
 
 import (
 	"fmt"
-	"strconv"
 	"math/big"
+	"strconv"
 	"strings"
 
 	"gcacheck/internal/an"
